@@ -1,5 +1,9 @@
 """C14 (kernel) / C08 literals -- parse_int either yields the exact documented value or a std::exception (DESIGN 0.3)"""
+import os
 import vpcheck as V
+import importlib.util
+_spec = importlib.util.spec_from_file_location('C01', os.path.join(V.VERIF, 'checks', 'C01.py'))
+C01 = importlib.util.module_from_spec(_spec); _spec.loader.exec_module(C01)
 
 LEVEL_TEXT = ("bounded symbolic model checking of parse_int (parser.yy, via the bison output regenerated at check time and lowered from "
               "clang IR) with the real std::stoull header code over a C11 model of strtoull: ALL tokens the lexer's INT rule admits up to "
@@ -10,6 +14,8 @@ TUS = ['constant.cc', 'int.cc']
 ENTRIES = ['c14_int_len%d' % l for l in range(1, 5)] + ['c14_int_neg_len%d' % l for l in range(1, 5)] + \
           ['c14_int_bound%d_%s' % (r, v) for r in (16, 10, 8) for v in ('max', 'max_long', 'negmax', '63', 'neg63', 'neg63_long')]
 
+API_ENTRIES = ['c14api_parse_len', 'c14api_parse_z', 'c14api_result', 'c14api_str']
+
 def modules(ctx):
     native = [t for t in V.ALL_CORE if t != '@gen/parser.cc']
     m = V.Module(ctx, 'c14', TUS + ['@gen/lexer.cc'], 'c14.cc', ENTRIES, native_tus=native, native_libs=('-ldl',),
@@ -17,11 +23,16 @@ def modules(ctx):
                  stubs=('cxxrt.c', 'vp_cbmc.c', 'ostream_null.c', 'string_msg.c'),
                  overrides=('_ZStplIcSt11char_traitsIcESaIcEENSt7__cxx1112basic_stringIT_T0_T1_EEOS8_PKS5_',))
     m.kf_defs = ['VP_KF_' + k['id'] for k in V.load_known('C14') if 'id' in k]
-    return {'c14': m}
+    # API boundary (harness/c14api.cc): the real libzwerg.cc over stubs of the parser and the op builder
+    api_native = [t for t in C01.ALL_CORE if t != 'build.cc'] + ['libzwerg.cc']
+    a = V.Module(ctx, 'c14api', C01.CORE_TUS + ['libzwerg.cc', 'tree.cc'], 'c14api.cc', API_ENTRIES, native_tus=api_native, native_libs=('-ldl',),
+                 empties=('_ZN10value_type13register_type',), fno_access=False)
+    return {'c14': m, 'c14api': a}
 
 def run(ctx):
     ctx.gen_sources(need_parser=True)
-    m = modules(ctx)['c14']
+    mods = modules(ctx)
+    m = mods['c14']
     for k in V.load_known('C14'):
         ctx.known.append(k['text'].split(' ', 1)[1])
     ctx.bounds.update(tokens='tokens of 1..4 characters after the optional sign: first character every digit, second character 21 class representatives (xXbBoO0127 89afgzAFGZ_), further characters fully symbolic', boundary='2^63 and 2^64-1 literals in radix 16/10/8, '
@@ -29,6 +40,20 @@ def run(ctx):
     ctx.assumptions += ['strtoull modelled per C11 7.22.1.4 (stubs/cxxrt.c); errno is a plain variable', 'operator new never fails',
                         'the lexer and the grammar around the literal are outside (DESIGN 7)']
     jobs = []
+    # ---- API boundary
+    a = mods['c14api']
+    ctx.bounds.update(api='queries of 0..3 bytes (explicit length, exact buffer; NUL-terminated); parser outcome in {ok, runtime_error, invalid_argument, '
+                          'out_of_range, non-std exception} x builder outcome {ok, runtime_error}; result sets of 0..2 stacks with a failure at any pull; '
+                          'strings of 0..4 arbitrary bytes')
+    ctx.assumptions += ['API kernel: parse_query and tree::build_exec are stubs that fail or succeed nondeterministically (the real parser behind the API is '
+                        'not encoded); the compiled query is a protocol stub operator']
+    api_plan = [('c14api_parse_len', lo, 4, 40) for lo in range(0, 40, 4)] + [('c14api_parse_z', lo, 4, 20) for lo in range(0, 20, 4)] + \
+               [('c14api_result', lo, 6, 108) for lo in range(0, 108, 6)] + [('c14api_str', 0, 5, 5)]
+    for e, lo, ch, n in api_plan:
+        if ctx.only and e not in ctx.only:
+            continue
+        jobs.append(lambda e=e, lo=lo, ch=ch: V.run_entry(ctx, a, e, 10, timeout=900, bounds='scenarios [%d,%d)' % (lo, lo + ch), object_bits=12, tv_seeds=0,
+                                                          harness_unwind=ch + 12, cdefs=('VP_LO=%d' % lo, 'VP_HI=%d' % (lo + ch)), label='%s[%d:%d]' % (e, lo, lo + ch)))
     chunk = 4
     for e in ENTRIES:
         if ctx.only and e not in ctx.only:
